@@ -61,7 +61,7 @@ HEALTHY = [("recv_body",), ("gate", "gb"), ("send", {"type": "http.response.star
 HEALTHY_NOGATE = [op for op in HEALTHY if op[0] != "gate"]
 KINDS = ["raise", "return", "cancel", "raise_group", "badstart"]
 BAD_START = {"type": "http.response.start", "status": 200, "headers": [(b"x-bad", b"a\r\nset-cookie: b")]}
-CONTEXTS = ["h1_seq", "h1_pipe", "h2", "ws/h1", "ws/h2"]
+CONTEXTS = ["h1_seq", "h1_pipe", "h2", "h2up", "ws/h1", "ws/h2"]  # h2up: the client keeps uploading to the failed stream
 
 
 def failing(base: list, k: int, kind: str, framing: str) -> list:
@@ -95,6 +95,8 @@ def scenarios(tier: str) -> List[Any]:
                             continue
                         if kind == "badstart" and (ctx.startswith("ws") or k != 2):
                             continue
+                        if ctx == "h2up" and (kind != "raise" or k not in (0, 1) or framing != "cl"):
+                            continue
                         if kind == "raise_group" and k not in (0, 2, 3):
                             continue
                         out.append((engine, ctx, framing, k, kind))
@@ -126,6 +128,16 @@ def build(params: Any) -> tuple:
         conn = {"carrier": "h2", "tls": True, "alpn": "h2"}
         apps = {"http:/a": failing(HTTP_BASE, k, kind, framing), "http:/b": HEALTHY, "http:/c": HEALTHY_NOGATE}
         app_src = [("release", "gb")]
+    elif ctx == "h2up":
+        # stream 1's application fails without reading its body; the client goes on uploading 80 kB to it (more than
+        # the connection window), then uploads 20 kB on stream 3 whose application is healthy
+        client = [("cmd", 0, "preface"), ("cmd", 0, "headers", 1, h2_request_headers(b"POST", b"/a"), False)]
+        client += [("cmd", 0, "datan", 1, b"u" * 16000, False) for _ in range(5)]
+        client += [("cmd", 0, "headers", 3, h2_request_headers(b"POST", b"/b"), False),
+                   ("cmd", 0, "datan", 3, b"v" * 10000, False), ("cmd", 0, "datan", 3, b"v" * 10000, True)]
+        conn = {"carrier": "h2", "tls": True, "alpn": "h2"}
+        apps = {"http:/a": failing(HTTP_BASE, k, kind, framing), "http:/b": HEALTHY_NOGATE, "http:/c": HEALTHY_NOGATE}
+        app_src = []
     elif ctx == "ws/h1":
         client = [("data", 0, ws_h1_handshake(b"/a")), ("wait_status", 0), ("data", 0, ws_frame(OP_TEXT, b"yo"))]
         conn = {"carrier": "ws/h1"}
@@ -224,6 +236,14 @@ def oracle(w: Any, params: Any) -> List[dict]:
     # --- containment
     fired = [e for _, e in w.driver.fired]
     inst_b = next((i for i in w.instances if i.scope.get("path") == "/b"), None)
+    if ctx == "h2up" and not lost and rec.closed_at is None:
+        left = w.driver.sources[0][1][w.driver.pos[0]:]
+        st3 = cl.h2.streams.get(3)
+        if left:
+            out.append(V("sibling-broken", f"{ctx}:client-blocked", f"{tag}: the client cannot send {len(left)} more frame(s) "
+                                                                      f"(no flow-control credit returned): next {left[0][:4]}"))
+        elif st3 is None or not st3["ended"] or st3["body"] != b"ok":
+            out.append(V("sibling-broken", f"{ctx}:stream3", f"{tag}: sibling upload not answered: {st3}"))
     if ctx in ("h2", "ws/h2") and inst_b is not None and not lost:
         released = ("release", "gb") in fired
         st3 = cl.h2.streams.get(3)
